@@ -203,6 +203,26 @@ def run(ck):
             direct.append({"clause": "the evaluator's %s differs from what the compiled program returns" % ("constant" if out.startswith("(q") or out == "()" else "residual expression"),
                            "expression": "closed call on constant arguments" if kind == "closed" else "open expression (mod PARAMS body)", "repl_dialect": dname or "(default)",
                            "evaluator_returned": out[:1500], "arguments": r["args_clvm"][kk], "program_returns": want, "returned_expression_gives": (rr or "")[:200], "session": text})
+    # ---- hand-written closed expressions with destructuring binding patterns (outside the program generator): the
+    # constant the evaluator returns vs the value of the compiled program
+    fixed = ["(assign (a b c) (list 1 2 3) (list c b a))", "(assign (a (b c) . d) (list 1 (list 2 3) 4 5) (list d c b a))", "(assign ((a b) c) (list (list 1 2) 3) (+ a (* b 10) (* c 100)))",
+             "(assign (a b c d e) (list 1 2 3 4 5) e)", "(assign x 5 (y z) (list x 7) (- z y))"]
+    fr = vlib.impl(["repl\t%s\t%s" % (e.encode().hex(), dn) for e in fixed for dn in REPL_DIALECTS], timeout_line=120)
+    fc = vlib.impl(["compile\t1\t\t" + ("(mod () (include *standard-cl-23*) %s)" % e).encode().hex() for e in fixed], timeout_line=60)
+    fv = vlib.impl(["run\t2\t%s\tx" % c[3:].split("\t")[0] if c.startswith("OK ") else "run\t2\tx\tx" for c in fc])
+    fi = 0
+    for ei, e in enumerate(fixed):
+        for dn in REPL_DIALECTS:
+            out = fr[fi]
+            fi += 1
+            if not (out.startswith("OK V (q") and fc[ei].startswith("OK ") and fv[ei].startswith("OK ")):
+                continue
+            val = vlib.impl(["assemble\t" + out[5:].encode().hex()])[0]
+            got = vlib.impl(["run\t2\t%s\tx" % val[3:]])[0] if val.startswith("OK ") else val
+            compared += 1
+            if got != fv[ei]:
+                direct.append({"clause": "the evaluator's constant differs from what the compiled program returns", "expression": "closed expression with a destructuring assign pattern", "repl_dialect": dn or "(default)",
+                               "evaluator_returned": out[5:], "program_returns": fv[ei], "session": e})
     # ---- the tie: Lang/PEval.v (extracted) on the programs that lie in the model's fragment
     closed_repl = {}
     for (ri, dname, kind, kk, out, text), rr in zip(rmeta, rres):
